@@ -1317,7 +1317,10 @@ def resolve_action(act, env, last_data):
     if k == 'raw':
         return binascii.unhexlify(act[1]) if act[1] != '-' else b''
     if k == 'auth-cookie':
-        env.last_user = act[1]
+        # the keyring the simulated client reads belongs to the user of the exchange the SERVER is in: an AUTH that
+        # the bus answers with ERROR / REJECTED (e.g. sent in the middle of another exchange) does not change it;
+        # run_real promotes pending_user to last_user when the AUTH is answered with a challenge
+        env.pending_user = act[1]
         return b'AUTH DBUS_COOKIE_SHA1 ' + binascii.hexlify(act[1].encode('ascii'))
     if k == 'auth-external':
         return b'AUTH EXTERNAL' + ((b' ' + binascii.hexlify(act[1].encode('ascii'))) if act[1] is not None else b'')
@@ -1408,6 +1411,8 @@ def run_real(spec, actions, reads=None, extra_sha=None):
                     for ln in new:
                         if ln.startswith(b'DATA'):
                             last_data = ln
+                            if act[0] == 'auth-cookie':
+                                env.last_user = getattr(env, 'pending_user', env.last_user)
         else:
             crashed = feed(proto, t, reads)
         attach_replies(tr, t)
